@@ -815,7 +815,8 @@ var profiles = map[string]func(b *bias, g *gen){
 		b.pValidator, b.pChange, b.pNo304, b.pSWR = 90, 40, 20, 25
 		b.lifetimes = []int64{1, 2, 2, 300}
 		b.freshKinds = []int{10, 0, 0, 0}
-		b.pNoCache, b.pNoStore, b.pMustReval, b.pReqCC, b.pNoCacheQ, b.pErrStatus = 0, 0, 0, 6, 0, 0
+		b.pNoCache, b.pNoStore, b.pMustReval, b.pReqCC, b.pNoCacheQ, b.pErrStatus = 0, 0, 0, 30, 0, 0
+		b.reqCCs = []string{"no-cache", "no-cache", "max-age=0"} // validations of entries that are still fresh, while their neighbours stay
 		b.resources, b.clients, b.ops, b.plans = [2]int{1, 1}, [2]int{1, 1}, [2]int{10, 22}, [2]int{2, 4}
 		b.thinkFocus = 0
 		b.thinks = []int64{0, 1, 3, 3}
